@@ -4,6 +4,7 @@
 -/
 import OttoVerif.C13.Lemmas
 import OttoVerif.C05.Theorems
+import OttoVerif.C06.Theorems
 namespace OttoVerif.C13.Thm
 open OttoVerif.F64 OttoVerif.Str OttoVerif.C13
 
@@ -117,6 +118,25 @@ theorem special_values (L : Lib) (hL : LibOK L) (f : Fn1) (x r : FV)
             simp [mathFn1, goFn1, hm, logFrexpAmd64, hne, hL.log_one m e h3]
           · simp [h3] at h
         · simp [Spec.fn1Table, hm] at h; subst h; simp [mathFn1, goFn1, hm]
+
+/-! ## the text form of a Math result -/
+
+/-- C13.math_result_text — the Value any Math function returns for the number x is float64-kinded, so its
+    text (String(r), r + "", a property key) is §9.8.1 ToString of x and Export() gives a float64 — for every
+    x, under the digit-generation hypothesis of C06 (`Thm.toString_eq_spec`, validated per sample there). -/
+theorem math_result_text (x : FV)
+    (h : ∀ s m e, x = .fin s m e → m ≠ 0 →
+      OttoVerif.C06.Thm.WFDec (OttoVerif.C06.Spec.shortestDigits m e) ∧
+      OttoVerif.C06.Spec.Dev.sideOK x (OttoVerif.C06.Spec.shortestDigits m e).dp = true) :
+    numValText OttoVerif.C06.Spec.exactLib (mathValue x) = Spec.resultText x ∧
+    exportType (mathValue x) = Spec.resultExportType := by
+  refine ⟨?_, rfl⟩
+  simp only [numValText, mathValue, float64Value, OttoVerif.C06.numValToString, Spec.resultText]
+  exact OttoVerif.C06.Thm.toString_eq_spec x h
+
+/-- what an int64-kinded result would print: all the digits of 2^56, where §9.8.1 gives the 16 shortest -/
+example : numValText OttoVerif.C06.Spec.exactLib ⟨.int64, .fin false (2^52) 4⟩ ≠ Spec.resultText (.fin false (2^52) 4) := by
+  decide +kernel
 
 /-! ## max / min (§15.8.2.11–12) -/
 
